@@ -86,13 +86,16 @@ def body_order(ctx, case):
         # another board was attached under the same device name earlier in this process
         call_sut(ebb_serial.min_version, legacy_port(Board("legacy", version=vstr(case["prior"])), device),
                  vstr(threshold))
-    port = legacy_port(Board("legacy", version=vstr(version)), device)
+    board = Board("legacy", version=vstr(version))
+    if case.get("banner"):
+        board.banner_prefix = case["banner"]
+    port = legacy_port(board, device)
     got = call_sut(ebb_serial.min_version, port, vstr(threshold))
     if got is not want:
         ctx.fail("ebb_serial.min_version(<board reporting %s>, %r) = %r, expected %r (numeric order)"
                  % (vstr(version), vstr(threshold), got, want), case)
     obj = ebb3_serial.EBB3()
-    call_sut(obj.parse_version, "EBBv13_and_above EB Firmware Version %s" % vstr(version))
+    call_sut(obj.parse_version, "%s Firmware Version %s" % (case.get("banner") or "EBBv13_and_above EB", vstr(version)))
     got3 = call_sut(obj.min_version, vstr(threshold))
     if got3 is not want:
         ctx.fail("EBB3.min_version(%r) after parse_version('... Firmware Version %s') = %r, expected %r"
@@ -113,9 +116,11 @@ def is_probe(data):
 class ScriptedDevice:
     """kind: prompt | late | after_garbage | non_ebb | silent; behind it a conforming Board."""
 
-    def __init__(self, kind, version, chatter="Arduino ready"):
+    def __init__(self, kind, version, chatter="Arduino ready", banner=None):
         self.kind = kind
         self.board = Board("ebb3", version=version)
+        if banner:
+            self.board.banner_prefix = banner
         self.chatter = chatter
         self.probes = 0
         self.received = []
@@ -146,7 +151,7 @@ def body_connect(ctx, case):
     classes = set()
     is_ebb = kind in ("prompt", "late", "after_garbage")
     supported = version >= MIN_SUPPORTED
-    device = ScriptedDevice(kind, vstr(version), case.get("chatter", "Arduino ready"))
+    device = ScriptedDevice(kind, vstr(version), case.get("chatter", "Arduino ready"), case.get("banner"))
     port = FakePort(device)
     name = em.PORT_NAME
     comports = [FOREIGN, (name, "EiBotBoard,East", "USB VID:PID=04D8:FD92 SER=East LOCATION=1-1")]
@@ -301,6 +306,8 @@ def body_gate(ctx, case):
     else:
         version = tuple(version)
         board = Board("legacy", version=vstr(version), nickname="East")
+        if case.get("banner"):
+            board.banner_prefix = case["banner"]
         want = version >= threshold
         classes = {"gate_open" if want else "gate_closed"}
         if abs(sum(a - b for a, b in zip(version, threshold))) <= 1 and version[:2] == threshold[:2]:
@@ -367,6 +374,8 @@ def order_cases(draw):
     t = draw(st.one_of(st.sampled_from(THRESHOLDS), TRIPLE))
     v = draw(st.one_of(TRIPLE, near(st.just(t)), st.just(t)))
     case = {"v": list(v), "t": list(t)}
+    if draw(st.integers(0, 2)) == 0:
+        case["banner"] = draw(st.sampled_from(BANNERS))
     if draw(st.integers(0, 3)) == 0:
         case["prior"] = list(draw(st.one_of(TRIPLE, near(st.just(t)))))
     return case
@@ -381,7 +390,11 @@ def order_grid():
 KINDS = ["prompt", "late", "after_garbage", "non_ebb", "silent"]
 CONNECT_VERSIONS = [(3, 0, 2), (3, 0, 1), (3, 0, 3), (2, 8, 1), (2, 10, 0), (3, 0, 10), (3, 1, 0), (3, 10, 0),
                     (10, 0, 0), (2, 99, 99), (4, 0, 0), (3, 0, 0), (0, 0, 0), (2, 5, 5)]
-CHATTER = ["Arduino ready", "ok", "Marlin 2.0", "echo: v", "!8 Err: Unknown command 'v'", "GRBL 1.1", "E B B"]
+CHATTER = ["Arduino ready", "ok", "Marlin 2.0", "echo: v", "!8 Err: Unknown command 'v'", "GRBL 1.1", "E B B",
+           "Pebble Dock Firmware Version 4.1.0", "webbing controller Firmware Version 3.0.2", "ebb",
+           "Firmware Version 3.0.2", "eBB-like Firmware Version 9.9.9"]
+BANNERS = ["EBBv13_and_above EB", "EBBv13_and_above EB", "EBBv1.3 EB", "EBBv3.1 EB", "EBBv2.6 EB", "EBB v4.0.0 hardware, EB",
+           "EBB 10.0 EB"]
 
 
 @st.composite
@@ -391,7 +404,7 @@ def connect_cases(draw):
     case = {"kind": kind, "v": list(version), "chatter": draw(st.sampled_from(CHATTER)),
             "lookup": draw(st.sampled_from(["first", "first", "first", "by_name", "by_wrong_name", "none_present"])),
             "then": draw(st.sampled_from(sorted(em.METHODS))), "retries": draw(st.sampled_from([0, 0, 1, 2])),
-            "prior_session": draw(st.integers(0, 3)) == 0}
+            "prior_session": draw(st.integers(0, 3)) == 0, "banner": draw(st.sampled_from(BANNERS))}
     fault = draw(st.integers(0, 5))
     if fault == 0:
         case["open_fault"] = draw(st.sampled_from(SERIAL_FAMILY))
@@ -407,6 +420,10 @@ def connect_grid():
         yield {"kind": kind, "v": list(version), "lookup": "first", "then": "query_statusbyte"}
         yield {"kind": kind, "v": list(version), "lookup": "first", "then": "command", "retries": 1}
         yield {"kind": kind, "v": list(version), "lookup": "first", "then": "query", "prior_session": True}
+        for banner in BANNERS[2:]:
+            yield {"kind": kind, "v": list(version), "lookup": "first", "then": "query", "banner": banner}
+        for chatter in CHATTER[7:]:
+            yield {"kind": kind, "v": list(version), "lookup": "first", "then": "command", "chatter": chatter}
         yield {"kind": kind, "v": list(version), "lookup": "first", "then": "query", "retries": 2}
         for exc in SERIAL_FAMILY:
             yield {"kind": kind, "v": list(version), "lookup": "first", "open_fault": exc, "then": "command"}
@@ -433,6 +450,9 @@ def gate_grid():
             yield {"gate": gate, "v": list(version)}
         yield {"gate": gate, "v": "silent"}
         yield {"gate": gate, "v": "garbage"}
+        for banner in BANNERS[2:]:
+            for version in ((2, 5, 4), (2, 9, 9), (2, 2, 2), (3, 0, 0)):
+                yield {"gate": gate, "v": list(version), "banner": banner}
         for prior, version in (((2, 8, 1), (2, 2, 2)), ((2, 2, 2), (2, 8, 1)), ((2, 10, 0), (2, 5, 4)),
                                ((2, 5, 4), (2, 10, 0)), ((3, 0, 0), (1, 9, 9))):
             yield {"gate": gate, "v": list(version), "prior": list(prior)}
@@ -444,6 +464,8 @@ def gate_cases(draw):
     gate = draw(st.sampled_from(sorted(GATES)))
     version = draw(st.one_of(TRIPLE, near(st.just(GATES[gate][0]))))
     case = {"gate": gate, "v": list(version)}
+    if draw(st.integers(0, 2)) == 0:
+        case["banner"] = draw(st.sampled_from(BANNERS))
     if draw(st.integers(0, 2)) == 0:
         case["prior"] = list(draw(st.one_of(TRIPLE, near(st.just(GATES[gate][0])), st.sampled_from(GATE_VERSIONS))))
     return case
